@@ -180,6 +180,20 @@ func attrSweepDocs() []leafDoc {
 				avs = append(avs, av{a[0], v2})
 			}
 		}
+		// all attributes at once (first value of each)
+		{
+			seen := map[string]bool{}
+			var all []string
+			for _, x := range avs {
+				if !seen[x.a] {
+					seen[x.a] = true
+					all = append(all, x.a+`="`+xmlAttrEsc(x.v)+`"`)
+				}
+			}
+			if src := legalContext(tag, strings.Join(all, " "), ""); src != "" {
+				out = append(out, leafDoc{desc: "attr/" + tag + "/ALL", src: src})
+			}
+		}
 		for i, x := range avs {
 			if src := legalContext(tag, x.a+`="`+xmlAttrEsc(x.v)+`"`, ""); src != "" {
 				out = append(out, leafDoc{desc: "attr/" + tag + "/" + x.a, src: src})
